@@ -125,7 +125,7 @@ extern const world_t world_lists, world_trees, world_heap, world_map,
 
 /* ------------------------------------------------------ run-global state */
 
-#define MAXPROBE 128
+#define MAXPROBE 1024
 
 struct sim_run {
     /* identification (for crash lines) */
@@ -158,6 +158,8 @@ extern const char *g_probe_name[MAXPROBE];
 int probe_id(const char *name);         /* registers on first use */
 #define PROBE(name) do { static int _pid = -1; \
         if (_pid < 0) _pid = probe_id(name); g_probe[_pid]++; } while (0)
+/* probe with a run-time name (interned by content) */
+void probe_dyn(const char *name);
 #define PROBE_N(name, n) do { static int _pid = -1; \
         if (_pid < 0) _pid = probe_id(name); g_probe[_pid] += (n); } while (0)
 
